@@ -109,3 +109,58 @@ theorem dayBudgetG_eq (w d : α) :
   · rename_i h; rw [min_eq_right (le_of_not_gt h)]; ring
 
 end LdarModel.Crew
+
+/-! ### homogeneity: the model does not care about the unit of time
+
+Multiplying every time quantity by `k > 0` multiplies every time output by `k` and changes no
+decision.  Rational minutes with common denominator `q` are therefore covered by the integer theorems
+applied to the instance measured in units of `1/q` minute (this is also how the fractional-daylight
+correspondence feeds the driver). -/
+namespace LdarModel.Crew
+
+def scaleOut (k : Int) (o : StepOut) : StepOut :=
+  { o with rem := k * o.rem, surveyed := k * o.surveyed, travel := k * o.travel, today := k * o.today }
+
+theorem surveyStep_scale (k : Int) (hk : 0 < k) (R S T P : Int) (st w : Bool) :
+    surveyStep (k * R) (k * S) (k * T) (k * P) st w = scaleOut k (surveyStep R S T P st w) := by
+  have hle : ∀ a b : Int, k * a ≤ k * b ↔ a ≤ b := fun a b =>
+    ⟨fun h => le_of_mul_le_mul_left h hk, fun h => Int.mul_le_mul_of_nonneg_left h hk.le⟩
+  have hlt : ∀ a b : Int, k * a < k * b ↔ a < b := fun a b =>
+    ⟨fun h => lt_of_mul_lt_mul_left h hk.le, fun h => Int.mul_lt_mul_of_pos_left h hk⟩
+  have e1 : k * S + k * T * 2 - k * P = k * (S + T * 2 - P) := by ring
+  have e2 : 2 * (k * T) = k * (2 * T) := by ring
+  have e3 : k * R - k * T - (k * S - k * P) = k * (R - T - (S - P)) := by ring
+  have e4 : k * R - k * T * 2 = k * (R - T * 2) := by ring
+  have e5 : k * P + k * (R - T * 2) = k * (P + (R - T * 2)) := by ring
+  have e6 : k * S - k * P = k * (S - P) := by ring
+  cases w
+  · simp [surveyStep, scaleOut]
+  · cases st
+    · by_cases h1 : R ≥ S + T * 2 - P
+      · have h1' : k * R ≥ k * S + k * T * 2 - k * P := by rw [e1]; exact (hle _ _).2 h1
+        have hl : decide (k * R - k * T - (k * S - k * P) ≤ k * T) = decide (R - T - (S - P) ≤ T) := by
+          rw [decide_eq_decide, e3]; exact hle _ _
+        simp only [surveyStep, scaleOut, effS, effT, Bool.not_true, Bool.false_eq_true, if_false, false_or, h1,
+          h1', if_true]
+        congr 1
+      · have h1' : ¬ k * R ≥ k * S + k * T * 2 - k * P := by rw [e1]; exact fun h => h1 ((hle _ _).1 h)
+        by_cases h2 : R > 2 * T
+        · have h2' : k * R > 2 * (k * T) := by rw [e2]; exact (hlt _ _).2 h2
+          simp only [surveyStep, scaleOut, effS, effT, Bool.not_true, Bool.false_eq_true, if_false, false_or, h1,
+            h1', h2, h2', if_true]
+          congr 1 <;> ring
+        · have h2' : ¬ k * R > 2 * (k * T) := by rw [e2]; exact fun h => h2 ((hlt _ _).1 h)
+          simp only [surveyStep, scaleOut, effS, effT, Bool.not_true, Bool.false_eq_true, if_false, false_or, h1,
+            h1', h2, h2', Int.mul_zero]
+    · have hl : decide (k * R - 0 - (0 - k * P) ≤ 0) = decide (R - 0 - (0 - P) ≤ 0) := by
+        rw [decide_eq_decide]
+        have : k * R - 0 - (0 - k * P) = k * (R - 0 - (0 - P)) := by ring
+        rw [this]
+        have h0 := hle (R - 0 - (0 - P)) 0
+        rw [mul_zero] at h0
+        exact h0
+      simp only [surveyStep, scaleOut, effS, effT, Bool.not_true, Bool.false_eq_true, if_false, if_true, true_or, hl,
+        Int.mul_zero]
+      congr 1 <;> ring
+
+end LdarModel.Crew
